@@ -87,6 +87,7 @@ pub struct Oracle {
     c20_calls_seen: usize,
     c20_ticks_seen: usize,
     c16_deliveries_seen: usize,
+    registrations_seen: usize,
     c06_epochs_done: BTreeSet<u64>,
     c06_artifacts_done: BTreeSet<String>,
     pub avk_by_epoch: BTreeMap<u64, String>,
@@ -118,6 +119,7 @@ impl Oracle {
             c20_calls_seen: 0,
             c20_ticks_seen: 0,
             c16_deliveries_seen: 0,
+            registrations_seen: 0,
             c06_epochs_done: BTreeSet::new(),
             c06_artifacts_done: BTreeSet::new(),
             avk_by_epoch: BTreeMap::new(),
@@ -182,6 +184,8 @@ impl Oracle {
                 && *recording_epoch == rec
                 && d.status == 201
                 && !d.damaged
+                // acknowledged while the round recording for `rec` was the open one
+                && d.agg_service_epoch.is_none_or(|e| e + 1 == rec)
             {
                 best = w.keys.get(&(party, rec)).and_then(|ks| ks.get(*key_index));
             }
@@ -242,6 +246,26 @@ impl Oracle {
         let Some(db) = w.db() else { return };
         let step = w.step;
         self.observe_epoch_settings(w, &db, step);
+        // the signers registered for an epoch are those acknowledged while the round recording
+        // for it was open: an acknowledgement for the round of another epoch changes a set that
+        // is closed (or not opened yet)
+        if self.is("C14") {
+            let from = self.registrations_seen;
+            self.registrations_seen = w.deliveries.len();
+            for d in w.deliveries.iter().skip(from) {
+                if let MsgKind::Registration { party, recording_epoch, .. } = &d.msg.kind
+                    && d.status == 201
+                    && let Some(e) = d.agg_service_epoch
+                {
+                    self.probe("registration_acknowledgements_checked");
+                    if e + 1 != *recording_epoch {
+                        self.report(step, "registration-for-other-round-acknowledged", format!(
+                            "the aggregator, working in epoch {e} (open registration round: recording epoch {}), acknowledged (201) the registration of party {party} labelled with recording epoch {recording_epoch}: the signer set of an epoch whose round is not the open one was changed",
+                            e + 1));
+                    }
+                }
+            }
+        }
         let certs = db.certificates();
         let open_messages = db.open_messages();
         let sigs = db.single_signatures();
